@@ -243,7 +243,7 @@ class OverrideSpec:
     def stored_is_copy(self, ex, stored, source, who):
         """C12 V1/V2: what is stored is a deep copy made by this activation (or atomic)"""
         stored = L.simp(stored)
-        dc = [d for d in ex.deepcopies if d[0].eq(stored)]
+        dc = [d for d in ex.deepcopies if ex.same(d[0], stored)]
         atomic = z3.Or(L.is_scalar(stored), L.is_Fun(stored), L.is_Slice(stored))
         if dc and not dc[0][2]:
             ex.prove('C12:%s:stored-value-is-an-independent-copy' % who, ['C12', 'C07'], True)
@@ -278,7 +278,7 @@ class OverrideSpec:
         # C12 V3: the right operand handed to the operator is a deep copy
         for p in ops_:
             rhs = L.simp(p[4])
-            dc = [d for d in ex.deepcopies if d[0].eq(rhs) and not d[2]]
+            dc = [d for d in ex.deepcopies if ex.same(d[0], rhs) and not d[2]]
             ex.prove('C12:ShortOp.eval:operand-is-an-independent-copy', ['C12'],
                      True if dc else z3.Or(L.is_scalar(rhs), L.is_Fun(rhs), L.is_Slice(rhs)),
                      {'watch': {'operand': rhs}})
@@ -330,7 +330,7 @@ class OverrideSpec:
         """C07/C08/C04: which primitive, on which operands, after which cast"""
         res = outcome[1]
         bins = prims(ex, 'binop')
-        cmps = [c for c in prims(ex, 'compare') if c[3].eq(v1) or c[4].eq(v2)]
+        cmps = [c for c in prims(ex, 'compare') if ex.same(c[3], v1) or ex.same(c[4], v2)]
         strs = prims(ex, 'str_of')
         decs = prims(ex, 'decimal_of')
         lit = ex.lit_of(op)
